@@ -1,7 +1,8 @@
 import os
 import vlib
 
-THEOREMS = []
+THEOREMS = ["Dispenso.AsyncReq." + t for t in [
+    "C24_mutex", "C24_emplace_only_when_requested", "C24_take_is_fresh", "C24_history", "C24_old_double_delivery"]]
 
 
 def run(ctx, replay):
